@@ -318,12 +318,12 @@ def _drive(ts, path, ops, nh, h1, h2, b0, init_bytes, creator=None):
                     fresh = hs[i].closed
                     if len(o) > 3 and o[3] == "enter" and hs[i].mode == m:
                         hs[i].__enter__()           # `with h:` spelling
-                    elif creator and hs[i] is made and own_mode == m and len(cops) % 2 == 0:
+                    elif creator and hs[i] is made and fresh and own_mode == m and len(cops) % 2 == 0:
                         hs[i].open()                # no mode named: the object's own (append after creation, else the last one named)
                     else:
                         hs[i].open(m)
-                        if hs[i] is made:
-                            own_mode = m
+                        if hs[i] is made and fresh:
+                            own_mode = m            # (an open() of a handle that is already open changes nothing, also not its mode)
             except Exception as e:              # opening a library must not fail, whatever a crash left behind
                 viol.append((f"C02:open:raised:{type(e).__name__}",
                              f"open({m}) of handle {i} raised {type(e).__name__}: {str(e)[:80]} (file of {os.path.getsize(path)} bytes)"))
